@@ -43,6 +43,7 @@ class Node(betterproto.Message):
     kids: List["Node"] = betterproto.message_field(3)
     leaf: "Leaf" = betterproto.message_field(4)
     name: str = betterproto.string_field(5)
+    void: "Empty" = betterproto.message_field(6)      # a plain (not optional, not oneof) message type without fields
 
 
 @dataclass(eq=False, repr=False)
